@@ -102,6 +102,7 @@ type c12Op struct {
 	Files   map[string]string `json:"files,omitempty"` // create from safetensors: file name -> digest (instead of File)
 	System  string    `json:"system,omitempty"`
 	Tmpl    string    `json:"tmpl,omitempty"`
+	From    string    `json:"from,omitempty"` // create FROM an existing model (instead of File / Files)
 	// pull: what the (honest) registry serves
 	Manifest string    `json:"manifest,omitempty"` // JSON text
 	Blobs    []c12Blob `json:"blobs,omitempty"`
@@ -166,6 +167,14 @@ func (r *c12PieceReader) Read(p []byte) (int, error) {
 	copy(p, r.b[:n])
 	r.b = r.b[n:]
 	return n, nil
+}
+
+// a registry that has nothing (every request: 404)
+type c12NoRegistry struct{}
+
+func (c12NoRegistry) RoundTrip(req *http.Request) (*http.Response, error) {
+	return &http.Response{StatusCode: 404, Status: "404", Proto: "HTTP/1.1", ProtoMajor: 1, ProtoMinor: 1,
+		Header: http.Header{}, Body: io.NopCloser(strings.NewReader("nf")), ContentLength: -1, Request: req}, nil
 }
 
 // in-memory honest registry
@@ -311,7 +320,14 @@ func c12RunOp(t *testing.T, op *c12Op) string {
 		if op.Files != nil {
 			files = op.Files
 		}
-		w := c12Call(s.CreateHandler, nil, c12JSON(api.CreateRequest{Model: op.Name, Files: files,
+		if op.From != "" {
+			// create FROM a model: a base that does not resolve locally is pulled; the registry does not have it
+			files = nil
+			old := http.DefaultTransport
+			http.DefaultTransport = c12NoRegistry{}
+			defer func() { http.DefaultTransport = old }()
+		}
+		w := c12Call(s.CreateHandler, nil, c12JSON(api.CreateRequest{Model: op.Name, From: op.From, Files: files,
 			System: op.System, Template: op.Tmpl, Stream: &noStream}))
 		return c12Class(w.Code, w.Body.String())
 	case "copy":
@@ -1652,6 +1668,21 @@ func TestVerifC12(t *testing.T) {
 		})
 		// S8[x]: the models path contains a glob metacharacter
 		shape("S8[x]", func(dir string) {})
+		// S10 (round 7): hand-made download debris, so that the resume branches of the model that no crash of
+		// the unchanged single-part code produces are compared with the real code too: for pl3 a `-partial` file
+		// holding the first k bytes (shorter than the blob) + a record that declares exactly k bytes complete
+		// (resume from the MIDDLE); for cfg2 a `-partial` file without a record, LONGER than the blob (junk that
+		// the fresh download must truncate and overwrite)
+		shape("S10", func(dir string) {
+			b := filepath.Join(dir, "blobs")
+			base3 := filepath.Join(b, strings.ReplaceAll(c12Digest(pl3), ":", "-"))
+			k := r.Range(1, len(pl3)-1)
+			must(os.WriteFile(base3+"-partial", pl3[:k], 0o644))
+			rec, _ := json.Marshal(jsonBlobDownloadPart{N: 0, Offset: 0, Size: int64(len(pl3)), Completed: int64(k)})
+			must(os.WriteFile(base3+"-partial-0", append(rec, '\n'), 0o644))
+			basec := filepath.Join(b, strings.ReplaceAll(c12Digest(cfg2), ":", "-"))
+			must(os.WriteFile(basec+"-partial", append([]byte("junk left by something else, longer than the config blob: "), r.Bytes(40)...), 0o644))
+		})
 
 		// ---- which variant is this tree? (from the real syscall trace, no constant)
 		am, ap := 0, 0
@@ -1739,6 +1770,21 @@ func TestVerifC12(t *testing.T) {
 			{Store: "S1", Label: "pull-new-noprune", Op: np(opPullNew), Involved: inv("f")},
 			{Store: "S1", Label: "pull-update-noprune", Op: np(opPullUpd), Involved: inv("c")},
 			{Store: "S1", Label: "create-replace-noprune", Op: np(opCreateRepl), Involved: inv("a")},
+			// round 7: model branches no other scenario reaches (resume from the middle, junk -partial without a
+			// record; copy onto itself; copy of a missing source; delete of a missing / torn name; upload of a blob
+			// that is already there; create whose gguf blob was never uploaded)
+			{Store: "S10", Label: "pull-new-noprune", Op: np(opPullNew), Involved: inv("f")},
+			{Store: "S10", Label: "pull-new", Op: &opPullNew, Involved: inv("f")},
+			{Store: "S1", Label: "copy-self", Op: &c12Op{Kind: "copy", Src: "a", Name: "a"}, Involved: inv("a")},
+			{Store: "S1", Label: "copy-nosrc", Op: &c12Op{Kind: "copy", Src: "nosuch", Name: "e"}, Involved: inv("e"), ExpectFail: true},
+			{Store: "S1", Label: "delete-missing", Op: &c12Op{Kind: "delete", Name: "nosuch"}, Involved: inv("nosuch"), ExpectFail: true},
+			{Store: "S2", Label: "delete-torn", Op: &c12Op{Kind: "delete", Name: "z"}, Involved: inv("z"), ExpectFail: true},
+			{Store: "S1", Label: "upload-present", Op: &c12Op{Kind: "upload", Uploads: c12Blobs(g1), Chunk: chunk}, Involved: nil},
+			{Store: "S1", Label: "create-share", Op: &opCreateShare, Involved: inv("d")}, // every layer exists already ("using existing layer")
+			// create FROM the model that is being replaced (`ollama create a` with FROM a): the repeated operation needs
+			// the replaced model to resolve at every crash point (L2 only: not in the Lean operation alphabet)
+			{Store: "S1", Label: "create-from-self", Op: &c12Op{Kind: "create", Name: "a", From: "a", System: "third system prompt of a", Chunk: chunk}, Involved: inv("a"), NoL1: true},
+			{Store: "S1", Label: "create-from-other", Op: &c12Op{Kind: "create", Name: "d", From: "a", System: "system prompt of d from a", Chunk: chunk}, Involved: inv("d"), NoL1: true},
 		}
 		scen = append(scen,
 			scenario{Store: "S5", Label: "pull-new", Op: &opPullNew, Involved: inv("f")},
@@ -1760,9 +1806,9 @@ func TestVerifC12(t *testing.T) {
 		scen = append(scen,
 			scenario{Store: "S1", Label: "pull-fault-shortpage-noprune", Op: fault("shortpage", true), Involved: inv("f"), NoL1: true},
 			scenario{Store: "S1", Label: "pull-fault-cut-noprune", Op: fault("cut", true), Involved: inv("f"), NoL1: true},
-			scenario{Store: "S1", Label: "pull-fault-damaged-noprune", Op: fault("damaged", true), Involved: inv("f"), NoL1: true, ExpectFail: true},
-			scenario{Store: "S2", Label: "pull-fault-damaged", Op: fault("damaged", false), Involved: inv("f"), NoL1: true, ExpectFail: true},
-			scenario{Store: "S1", Label: "pull-fault-damaged", Op: fault("damaged", false), Involved: inv("f"), NoL1: true, ExpectFail: true},
+			scenario{Store: "S1", Label: "pull-fault-damaged-noprune", Op: fault("damaged", true), Involved: inv("f"), ExpectFail: true},
+			scenario{Store: "S2", Label: "pull-fault-damaged", Op: fault("damaged", false), Involved: inv("f"), ExpectFail: true},
+			scenario{Store: "S1", Label: "pull-fault-damaged", Op: fault("damaged", false), Involved: inv("f"), ExpectFail: true},
 		)
 		if thorough {
 			scen = append(scen,
@@ -1788,7 +1834,6 @@ func TestVerifC12(t *testing.T) {
 				scenario{Store: "S7", Label: "create-replace", Op: &opCreateRepl, Involved: inv("a")},
 				scenario{Store: "S7", Label: "delete-unshared", Op: &opDelUnshared, Involved: inv("c")},
 				scenario{Store: "S8[x]", Label: "pull-new", Op: &opPullNew, Involved: inv("f"), NoL1: true},
-				scenario{Store: "S1", Label: "create-share", Op: &opCreateShare, Involved: inv("d")},
 				scenario{Store: "S2", Label: "pull-update", Op: &opPullUpd, Involved: inv("c")},
 				scenario{Store: "S2", Label: "create-replace", Op: &opCreateRepl, Involved: inv("a")},
 				scenario{Store: "S2", Label: "copy-over", Op: &opCopyOver, Involved: inv("c")},
@@ -1831,7 +1876,25 @@ func TestVerifC12(t *testing.T) {
 			}
 			job := ""
 			if !sc.NoL1 {
-				opToks, hashed := c12OpTokens(sc.Op, full)
+				// round 7: a registry that serves DAMAGED bytes for one digest is inside the model too (reg maps the
+			// digest to the damaged bytes: download, rename, failed verification, removal) — the job is built from
+			// what the registry really served
+			modelOp := sc.Op
+			if sc.Op.Fault == "damaged" {
+				d := *sc.Op
+				d.Blobs = nil
+				for _, b := range sc.Op.Blobs {
+					if b.Digest == sc.Op.FaultDigest {
+						bad := append([]byte{}, b.bytes()...)
+						bad[len(bad)/2] ^= 0x20
+						b = c12Blob{Digest: b.Digest, Data: zzverif.Hex(bad)}
+					}
+					d.Blobs = append(d.Blobs, b)
+				}
+				modelOp = &d
+				out.Count("l1_damaged_registry_scenarios")
+			}
+			opToks, hashed := c12OpTokens(modelOp, full)
 				npTok := 0
 				if sc.Op.NoPrune {
 					npTok = 1
@@ -2100,6 +2163,10 @@ func TestVerifC12(t *testing.T) {
 						if _, ok := readable[name]; !ok {
 							if _, exists := manBytes[name]; exists {
 								out.L2("replaced-model-lost", caseLine, fmt.Sprintf("window=%s %s was readable before the operation and is unreadable (%d bytes) after the crash", window(n), name, len(manBytes[name])))
+							} else if sc.Op.Kind != "delete" && am == 1 {
+								// round 7 (theorem atomic_replaced_model_kept, trees that write manifests by temp + rename): an
+								// operation other than delete never makes a readable name vanish, not even for a moment
+								out.L2("replaced-model-lost", caseLine, fmt.Sprintf("window=%s %s was readable before the %s and does not exist after the crash", window(n), name, sc.Op.Kind))
 							}
 						}
 						continue
@@ -2122,7 +2189,8 @@ func TestVerifC12(t *testing.T) {
 				}
 				// ---- repeat the operation
 				res2 := c12RunOp(t, rerunOp)
-				okish := res2 == "ok" || (sc.Op.Kind == "delete" && res2 == "err:notfound")
+				okish := res2 == "ok" || (sc.Op.Kind == "delete" && res2 == "err:notfound") ||
+					(sc.ExpectFail && sc.Op.Fault == "" && res2 == res) // an operation that cannot succeed fails the same way again
 				if !okish {
 					out.L2("rerun-failed", caseLine, fmt.Sprintf("window=%s pruned=%v torn=%v result=%s", window(n), pruned, torn, res2))
 				} else {
@@ -2134,7 +2202,7 @@ func TestVerifC12(t *testing.T) {
 						out.L2("rerun-diverged", caseLine, fmt.Sprintf("window=%s readable manifests after rerun differ from the uninterrupted run: got [%s] want [%s]", window(n), got, fullReadable))
 					}
 				}
-				if !inRmRun {
+				if !inRmRun && sc.Op.Fault == "" {
 					resTok := "ok "
 					if res2 != "ok" {
 						resTok = "fail "
